@@ -32,7 +32,8 @@ if P:
     SLICES_OK = LEXER in ('basic', 'contextual')
     ONERR_OK = PARSER == 'lalr'
     NJUNK = P.get('njunk', 8)
-    REPRS = ['bytes', 'slice_str', 'slice_bytes', 'slice_str_neg', 'whole_slice'] if SLICES_OK else ['bytes', 'whole_slice']
+    # the dynamic lexers refuse windows that are not the complete text (TypeError, documented): a window they do take must still be right
+    REPRS = ['bytes', 'slice_str', 'slice_bytes', 'slice_str_neg', 'whole_slice'] if SLICES_OK else ['bytes', 'whole_slice', 'slice_str']
 
 
 def worker_extra():
@@ -136,7 +137,13 @@ def _body(rec, cs, jk, ri, onerr):
                 got, tree = _run(S, TextSlice(full, a - len(full), b - len(full)), a, buf, onerr)
             elif rep == 'slice_str':
                 buf = full
-                got, tree = _run(S, TextSlice(full, a, b), a, buf, onerr)
+                try:
+                    got, tree = _run(S, TextSlice(full, a, b), a, buf, onerr)
+                except TypeError:
+                    if SLICES_OK or not (junk1 or junk2):
+                        raise
+                    rec['count']['window_refused'] = 1
+                    return True
             else:
                 buf = full.encode('ascii')
                 got, tree = _run(B, TextSlice(buf, a, b), a, buf, onerr)
@@ -160,14 +167,16 @@ def check(cs: List[int], jk: int, ri: int, onerr: bool) -> bool:
 def plan(tier, seed):
     quick = tier == 'quick'
     slices = []
-    Ks = {'lines': 8, 'nlvia': 8}
+    Ks = {'lines': 8, 'nlvia': 8, 'kwfold': 7}
     for g, k in Ks.items():
         for parser, lexer in CONFIGS:
             if parser == 'cyk':
                 continue        # CYK needs an epsilon-free grammar; the text corpus uses * and ?
             if g == 'nlvia' and (quick and lexer not in ('contextual', 'dynamic')):
                 continue
-            Lg = (3 if (lexer in ('contextual', 'dynamic') and g == 'lines') else 2) if quick else 4
+            if g == 'kwfold' and lexer not in ('contextual', 'basic'):
+                continue        # keyword re-typing is the basic lexers' business
+            Lg = (3 if (lexer in ('contextual', 'dynamic') and g in ('lines', 'kwfold')) else 2) if quick else 4
             Jg = 1
             for pin in (range(k) if Lg >= 3 else [None]):
                 slices.append({'id': '%s:%s:%s:L%d%s' % (g, parser, lexer, Lg, '' if pin is None else ':pin%d' % pin), 'mode': 'realised',
